@@ -690,6 +690,9 @@ func flagIdiom(f *core.Fn, call *ast.CallExpr, arg ast.Expr) bool {
 }
 
 // sizeGate: every success return of SerializeUpdate is dominated by `G > LIMIT → error` with effect − G + LIMIT ≤ 4096.
+// sizeGateMax: the largest message the gate of SerializeUpdate lets through (set by sizeGate; read by C18).
+var sizeGateMax = map[*core.Ctx]int64{}
+
 func sizeGate(c *core.Ctx, f *core.Fn) {
 	p := c.P
 	an := core.NewSizeAn(p, true, nil)
@@ -746,6 +749,9 @@ func sizeGate(c *core.Ctx, f *core.Fn) {
 		d := eff.Sub(g.lin) // bytes not covered by the tested quantity
 		if d.IsConst() && int64(d.C)+g.limit <= 4096 {
 			ok = true
+			if m := int64(d.C) + g.limit; m > sizeGateMax[c] {
+				sizeGateMax[c] = m
+			}
 		}
 		if d.IsConst() {
 			best = fmt.Sprintf("tested quantity %s ≤ %d leaves the message at up to %d octets", g.lin.String(), g.limit, int64(d.C)+g.limit)
